@@ -22,6 +22,10 @@ RELATED = {
 ALL = [f"C{n:02d}" for n in range(1, 21)]
 
 
+VSEED = None
+NOWRITE = False
+
+
 def run_seed(sid, mode):
     d = os.path.join(ROOT, "seeded", sid)
     meta = json.load(open(os.path.join(d, "meta.json")))
@@ -36,6 +40,8 @@ def run_seed(sid, mode):
         res = {}
         for c in checks:
             env = dict(os.environ, XGCM_SRC=scratch, VERIF_SKIP_MC="1")
+            if VSEED is not None:
+                env["VERIF_SEED"] = str(VSEED)
             q = subprocess.run([os.path.join(ROOT, "check"), c, "--tier", "quick"], capture_output=True, text=True, env=env, cwd=ROOT)
             keys = [f"{k} ({n})" for k, n in re.findall(r"key=(\S+) cases=(\d+)", q.stdout)]
             res[c] = {"exit": q.returncode, "violation_keys": keys[:6], "cases": sum(int(n) for n in re.findall(r"cases=(\d+)", q.stdout))}
@@ -49,7 +55,11 @@ def main():
     ap.add_argument("--only", default="")
     ap.add_argument("--checks", default="related")
     ap.add_argument("--jobs", type=int, default=3)
+    ap.add_argument("--verif-seed", type=int, default=None, help="run the checks under this VERIF_SEED")
+    ap.add_argument("--no-write", action="store_true", help="only print, leave the meta.json files alone")
     a = ap.parse_args()
+    global VSEED, NOWRITE
+    VSEED, NOWRITE = a.verif_seed, a.no_write
     sids = sorted(os.path.basename(os.path.dirname(p)) for p in glob.glob(os.path.join(ROOT, "seeded", "*", "meta.json")))
     if a.only:
         sids = [s for s in sids if s in a.only.split(",")]
@@ -71,7 +81,8 @@ def main():
                 meta.pop("matrix_error", None)
                 print(sid, "caught by", meta["caught_by"], "missed by", meta["missed_by"], "machinery", meta["machinery_failures"],
                       "cases", meta["rejected_cases"])
-            json.dump(meta, open(mp, "w"), indent=1)
+            if not NOWRITE:
+                json.dump(meta, open(mp, "w"), indent=1)
 
 
 if __name__ == "__main__":
